@@ -18,7 +18,9 @@ ALLOWED_AXIOMS = {'propext', 'Classical.choice', 'Quot.sound'}
 FORBIDDEN = re.compile(r'\bsorry\b|\badmit\b|^axiom\s|native_decide|bv_decide|implemented_by|\bunsafe\s|maxHeartbeats\s+0')
 
 
-HIST_STATS = {'histories_checked_against_history_model': 0, 'history_model_agrees': 0, 'abstract_reader_accepts': 0}
+HIST_STATS = {'histories_checked_against_history_model': 0, 'history_model_agrees': 0, 'abstract_reader_accepts': 0,
+              'implementation_histories_judged_by_lean_abstract_reader': 0, 'lean_abstract_reader_accepts_implementation': 0}
+A_REJECTS = ' <lean-abstract-reader-rejects-implementation>'
 
 
 class BuildError(Exception):
@@ -204,12 +206,18 @@ def run_impl_bisect(cases):
     return lo[0] if lo else None
 
 
-def run_model(cases, timeout=3600):
-    """Returns (model observations, spec lines)."""
+def run_model(cases, impl=None, timeout=3600):
+    """Returns (model observations, spec lines).  With `impl` (the implementation's observation lines) the driver also
+    lets the Lean abstract reader A judge the implementation's history; a rejection is marked on the spec line."""
     # `P` cases (readers opened from a file path) are plain reader histories for the model
     cases = ['R' + c[1:] if c.startswith('P ') else c for c in cases]
-    data = ('\n'.join(cases) + '\n').encode()
-    p = subprocess.run([MBIN], input=data, stdout=subprocess.PIPE, stderr=subprocess.PIPE, timeout=timeout)
+    if impl is not None and len(impl) == len(cases):
+        data = ('\n'.join(c + '\nO ' + o.replace('\n', ' ') for c, o in zip(cases, impl)) + '\n').encode()
+        cmd = [MBIN, '--with-impl']
+    else:
+        data = ('\n'.join(cases) + '\n').encode()
+        cmd = [MBIN]
+    p = subprocess.run(cmd, input=data, stdout=subprocess.PIPE, stderr=subprocess.PIPE, timeout=timeout)
     if p.returncode != 0:
         raise BuildError('model driver failed: ' + p.stderr.decode()[-500:])
     ms, ss = [], []
@@ -219,6 +227,12 @@ def run_model(cases, timeout=3600):
             ss.append('')
         elif (l.startswith('S ') or l == 'S') and ss:
             body = l[2:]
+            rejected = False
+            if ' AI=' in body:
+                body, ai = body.rsplit(' AI=', 1)
+                HIST_STATS['implementation_histories_judged_by_lean_abstract_reader'] += 1
+                HIST_STATS['lean_abstract_reader_accepts_implementation'] += ai.startswith('1')
+                rejected = ai.startswith('0')
             # verdicts of the history model (Model/History*.lean) ride on the S line
             if ' H=' in body:
                 body, hv = body.split(' H=', 1)
@@ -229,7 +243,7 @@ def run_model(cases, timeout=3600):
                     ms[-1] += ' <history-model-disagrees>'
                 if 'A=0' in hv:
                     ms[-1] += ' <abstract-reader-rejects-model>'
-            ss[-1] = body
+            ss[-1] = body + (A_REJECTS if rejected else '')
         elif False:
             ss[-1] = ''
     if len(ms) != len(cases):
